@@ -466,7 +466,9 @@ class Sys:
         for arr_, nme in ((self.eps, "epsilons"), (self.sig, "sigmas"), (self.rc, "r_cuts")):
             ctx.state.origin[arr_.sid] = nme
         self.shift = ctx.bool("shiftpotential")
-        self.masses = ctx.pydict({a + 1: self.m[a] for a in range(K)})
+        # masses: a mapping type id -> mass.  Its insertion order is an input the contract does not fix ({2: .., 1: ..} is a valid argument):
+        # a lookup by key is order-independent; code that uses the dict positionally (values(), iteration) stops the engine (replay decides)
+        self.masses = ctx.pydict({a + 1: self.m[a] for a in range(K)}, unordered=True)
         z = A.zeros((d,), "float")
         self.snapshot = ctx.obj(RU, "SingleSnapshot", dict(timestep=0, nparticle=N, particle_type=self.ptype, positions=self.pos,
                                                            boxlength=z, boxbounds=z, realbounds=z, hmatrix=self.H))
@@ -1108,6 +1110,12 @@ def _replay_diag(case, clause, model, seed, trials=36):
                     masses[a_ + 1] = v
         if k % 5 == 4:
             masses = {a_ + 1: 1.0 for a_ in range(K)}      # equal masses (the case the repository's test has)
+        if K >= 2 and k % 2 == 1:
+            # the dict is a map keyed by type id: any insertion order is a valid input (descending for odd k % 4 == 1, shuffled otherwise)
+            keys = sorted(masses, reverse=True)
+            if k % 4 == 3:
+                rng.shuffle(keys)
+            masses = {key: masses[key] for key in keys}
         eps = np.zeros((K, K))
         sig = np.zeros((K, K))
         rc = np.zeros((K, K))
